@@ -34,8 +34,9 @@ TRUSTED = [
     "highlighting, prompt expansion, tokio",
 ]
 ASSUMPTIONS = [
-    "resource exhaustion is not a crash: brace ranges with more than ~1e5 elements, and scripts that do not terminate in bash "
-    "either, are outside the quantifier (bash behaves the same way)",
+    "scripts that do not terminate in bash either are outside the quantifier; brace ranges with more than ~1e5 elements are not "
+    "generated in the script streams (they only exhaust memory/time) except for the witness of KF-C01-brace-range-alloc "
+    "(brush panics with 'capacity overflow' / aborts where bash prints the word back)",
     "nesting depth <= 64 (stack exhaustion beyond that is outside the property's quantifier)",
     "cursor positions handed to highlighting/completion are char boundaries of the line (what the line editor produces)",
 ]
@@ -60,6 +61,7 @@ KF = {
     "casenest": "KF-C01-case-backtracking",
     "heredoc": "KF-C01-heredoc-empty-tag",
     "bracenest": "KF-C01-brace-backtracking",
+    "bracealloc": "KF-C01-brace-range-alloc",
 }
 
 # ------------------------------------------------------------------ running the harness (resumable)
@@ -562,6 +564,8 @@ def panic_function(loc):
             return "library/alloc/src/string.rs"
         if re.search(r"tokio-[\d.]+/src/runtime/task/core.rs", loc or ""):
             return "tokio::runtime/task/core.rs"
+        if "library/alloc/src/raw_vec" in (loc or ""):
+            return "library/alloc/src/raw_vec"
         return loc or "?"
     rel, line = m.group(2), int(m.group(4))
     path = os.path.join(core.REPO, rel)
@@ -598,6 +602,7 @@ KNOWN_EXPLORE = [
     (KF["ionumber"], "brush-parser/src/parser/peg.rs::io_number", "ParseIntError", lambda s: re.search(r"\d{10,}[<>]", s)),
     (KF["strftime"], "library/alloc/src/string.rs", "a Display implementation returned an error unexpectedly",
      lambda s: "D{" in s or "HISTTIMEFORMAT" in s),
+    (KF["bracealloc"], "library/alloc/src/raw_vec", "capacity overflow", lambda s: G.too_big(s)),
     (KF["waitjob"], "tokio::runtime/task/core.rs", "JoinHandle polled after completion", lambda s: "&" in s and "wait" in s),
 ]
 _CHARHANG = re.compile(r"\{[A-Za-z]\.\.[A-Za-z]\.\.[+-]?(\d+)\}")
